@@ -40,6 +40,7 @@ type Prepared struct {
 	Normalize     func(j *Job, pkg string, v *interp.Violation) Sig
 	ExpectReach   map[string][]string // job name -> reach ids that must be witnessed
 	Cleanup       func()
+	CostKey       func(fn string) string // stable name of a harness function for cost hints (default: the function path)
 	AllRuns       bool // native replays of assertion failures must fail in every run (byte-level comparisons of two encodings)
 }
 
@@ -157,7 +158,11 @@ func RunCheck(ctx *Ctx, prepare func(*Ctx) (*Prepared, error), level string) int
 	}
 	fmt.Printf("property=%s tier=%s jobs=%d\n", ctx.ID, ctx.Tier, len(jobs))
 	tPrep := time.Since(t0)
+	sortJobsByCost(ctx, prep, jobs)
 	results := RunJobs(jobs, ctx.Par, ctx.Work)
+	if os.Getenv("VERIF_WRITE_HINTS") != "" && ctx.Only == "" {
+		writeHints(ctx, prep, results)
+	}
 	tEngine := time.Since(t0) - tPrep
 	findings, err := loadFindings(filepath.Join(ctx.Verif, "known_findings.json"))
 	if err != nil {
